@@ -444,6 +444,23 @@ func (e *c23Env) nodeAdd(n string) {
 	}
 }
 
+// foreignNodeAdd creates a Calico node without a Kubernetes orchRef (bare-metal / OpenStack host
+// sharing an etcd datastore).  viaSyncer: the syncer delivers it (the controller caches it as "");
+// otherwise the controller only finds it through the datastore client.
+func (e *c23Env) foreignNodeAdd(cn string, viaSyncer bool) {
+	e.w.calicoNodes[cn] = ""
+	cnode := &internalapi.Node{ObjectMeta: metav1.ObjectMeta{Name: cn}}
+	if e.w.podGen%2 == 0 {
+		cnode.Spec.OrchRefs = []internalapi.OrchRef{{NodeName: cn, Orchestrator: "openstack"}}
+	}
+	e.nodeClient.Lock()
+	e.nodeClient.nodes[cn] = cnode
+	e.nodeClient.Unlock()
+	if viaSyncer {
+		e.c.handleUpdate(model.KVPair{Key: model.ResourceKey{Kind: internalapi.KindNode, Name: cn}, Value: cnode})
+	}
+}
+
 func (e *c23Env) calicoNodeDel(cn string) {
 	delete(e.w.calicoNodes, cn)
 	e.nodeClient.Lock()
@@ -609,7 +626,14 @@ func (f *c23IPAM) checkRelease(opt ipam.ReleaseOptions, how string) {
 		return
 	}
 	cnode := attrs[ipam.AttributeNode]
-	kn, _ := w.knodeFor(cnode)
+	kn, isK8s := w.knodeFor(cnode)
+	if !isK8s {
+		// A live Calico node that is not orchestrated by Kubernetes: its tunnel address is justified
+		// by the node itself, and its other allocations have owners this cluster knows nothing
+		// about (kubernetesNodeForCalico: ErrorNotKubernetes => the node is skipped).
+		e.violate("R1: %s: the allocation belongs to %s, a live Calico node that is not a Kubernetes node; the GC must leave it alone", desc, cnode)
+		return
+	}
 	nodeExists := kn != "" && w.k8sNodes[kn]
 	if c23IsTunnel(attrs) {
 		e.classes["release-tunnel"] = true
@@ -801,8 +825,10 @@ func (f *c23IPAM) ReleaseHostAffinities(ctx context.Context, cfg ipam.AffinityCo
 	if !mustBeEmpty {
 		e.violate("R4: ReleaseHostAffinities(%s) with mustBeEmpty=false", cfg.Host)
 	}
-	if kn, _ := w.knodeFor(cfg.Host); kn != "" && w.k8sNodes[kn] {
+	if kn, isK8s := w.knodeFor(cfg.Host); kn != "" && w.k8sNodes[kn] {
 		e.violate("R4: ReleaseHostAffinities(%s) but Kubernetes node %s still exists", cfg.Host, kn)
+	} else if !isK8s {
+		e.violate("R4: ReleaseHostAffinities(%s) releases every block (including the last) of a live Calico node that is not a Kubernetes node", cfg.Host)
 	}
 	var err error
 	for _, cidr := range c23Keys(w.blocks) {
@@ -1258,7 +1284,7 @@ func (w *c23World) allocsOfPod(pod string, gen int) []*c23Alloc {
 }
 
 func c23Run(t *rapid.T, rec *ev.Recorder) {
-	kdd := rapid.IntRange(0, 3).Draw(t, "etcdMode") != 0
+	kdd := rapid.IntRange(0, 4).Draw(t, "etcdMode") >= 2
 	var leakGrace *time.Duration
 	switch rapid.IntRange(0, 9).Draw(t, "graceKind") {
 	case 0:
@@ -1274,6 +1300,8 @@ func c23Run(t *rapid.T, rec *ev.Recorder) {
 	}
 	e := c23NewEnv(kdd, leakGrace)
 	w := e.w
+	// The three findings these signatures belonged to are fixed in the repo; ev.Known() stays in
+	// place so that a re-opened finding can be excluded again by listing it.
 	knownAttrs := ev.Known(c23KnownAttrs)
 	knownOrder := ev.Known(c23KnownOrder)
 	knownStale := ev.Known(c23KnownStaleKnode)
@@ -1320,7 +1348,7 @@ func c23Run(t *rapid.T, rec *ev.Recorder) {
 	ops := []string{
 		"podAdd", "podAdd", "cniAdd", "cniAdd", "cniAdd", "podReport", "podDel", "podDel", "podDel", "podResched", "podFinish",
 		"cacheSync", "nodeAdd", "nodeAdd", "nodeDel", "calicoNodeDel", "tunnelAdd", "vmAlloc", "vmToggle", "vmiToggle", "oddAlloc",
-		"seqBump", "blockAdd", "blockUnaffine", "blockDel", "lateRelease", "vmAttrRewrite", "podRecreateForLeak", "podRecreateForLeak", "restartRace", "restartRace", "restartRace", "restartRace", "nodeReuse", "nodeReuseAfterFailedRelease", "nodeReuseAfterFailedRelease",
+		"seqBump", "blockAdd", "blockUnaffine", "blockDel", "lateRelease", "vmAttrRewrite", "podRecreateForLeak", "podRecreateForLeak", "restartRace", "restartRace", "restartRace", "restartRace", "nodeReuse", "nodeReuseAfterFailedRelease", "nodeReuseAfterFailedRelease", "foreignNode", "foreignNode", "foreignAlloc", "foreignAlloc", "foreignAlloc",
 		"deliver", "deliver", "deliver", "tick", "tick", "tick", "sync", "sync", "sync", "sync", "sync", "inSync",
 	}
 	nOps := rapid.IntRange(8, ev.Scale(45, 90)).Draw(t, "nOps")
@@ -1597,6 +1625,67 @@ func c23Run(t *rapid.T, rec *ev.Recorder) {
 			e.calicoNodeDel(cn)
 			e.c.fullScanNextSync("periodic sync")
 			e.log("calicoNodeDel(%s)", cn)
+		case "foreignNode":
+			// etcd datastore shared with hosts that are not Kubernetes nodes.
+			if w.kdd {
+				continue
+			}
+			cn := rapid.SampledFrom([]string{"bm0", "bm1"}).Draw(t, "foreignNode")
+			if _, ok := w.calicoNodes[cn]; ok {
+				if rapid.IntRange(0, 3).Draw(t, "foreignNodeLeaves") == 0 {
+					e.calicoNodeDel(cn)
+					e.c.fullScanNextSync("periodic sync")
+					e.log("foreignNodeDel(%s)", cn)
+				}
+				continue
+			}
+			via := rapid.IntRange(0, 3).Draw(t, "deliveredBySyncer") != 0
+			e.foreignNodeAdd(cn, via)
+			e.classes["non-kubernetes-node"] = true
+			e.log("foreignNodeAdd(%s, viaSyncer=%v)", cn, via)
+		case "foreignAlloc":
+			var cands []string
+			for _, cn := range c23Keys(w.calicoNodes) {
+				if w.calicoNodes[cn] == "" {
+					cands = append(cands, cn)
+				}
+			}
+			if len(cands) == 0 {
+				continue
+			}
+			cn := rapid.SampledFrom(cands).Draw(t, "foreignNode")
+			kind := rapid.SampledFrom([]string{"tunnel", "tunnel", "podType", "emptyBlock", "unknownSource"}).Draw(t, "foreignKind")
+			switch kind {
+			case "tunnel":
+				h := "vxlan-tunnel-addr-" + cn
+				if b, _ := e.findHandle(h); b == nil {
+					if a := e.allocate(t, cn, h, true, map[string]string{ipam.AttributeNode: cn, ipam.AttributeType: ipam.AttributeTypeVXLAN}); a != nil {
+						e.classes["non-kubernetes-node-tunnel-address"] = true
+						e.log("foreignAlloc(tunnel on %s -> %s)", cn, a.IP)
+					}
+				}
+			case "podType":
+				w.podGen++
+				if a := e.allocate(t, cn, fmt.Sprintf("foreign-%d", w.podGen), true, map[string]string{ipam.AttributeNode: cn, ipam.AttributePod: "foreign-workload", ipam.AttributeNamespace: c23NS}); a != nil {
+					e.classes["non-kubernetes-node-workload-address"] = true
+					e.log("foreignAlloc(podType on %s -> %s)", cn, a.IP)
+				}
+			case "unknownSource":
+				w.podGen++
+				if a := e.allocate(t, cn, fmt.Sprintf("foreign-%d", w.podGen), true, map[string]string{ipam.AttributeNode: cn}); a != nil {
+					e.log("foreignAlloc(unknownSource on %s -> %s)", cn, a.IP)
+				}
+			case "emptyBlock":
+				for k := 0; k < c23NumBlocks; k++ {
+					if _, ok := w.blocks[c23CIDR(k)]; !ok {
+						b := &c23Block{CIDR: c23CIDR(k), K: k, Aff: cn}
+						w.blocks[b.CIDR] = b
+						w.touch(b)
+						e.log("foreignAlloc(empty block %s aff %s)", b.CIDR, cn)
+						break
+					}
+				}
+			}
 		case "tunnelAdd":
 			nodes := existingNodes()
 			if len(nodes) == 0 {
@@ -1878,7 +1967,7 @@ func (e *c23Env) pickAlloc(t *rapid.T, filter func(*c23Alloc) bool) (*c23Block, 
 func TestVerifC23IPAMGC(t *testing.T) {
 	ev.Quiet()
 	rec := ev.New("C23", "ipamgc",
-		"random histories of node add/delete (KDD and etcd naming), pod create/delete/reschedule/finish with a lagging pod informer, CNI allocations (1-2 IPs per handle, borrowed blocks), tunnel / KubeVirt VM / odd allocations, sequence-number bumps, block add/unaffine/delete, ordered block event delivery, time steps, GC syncs (dirty-only and full) with injected ReleaseIPs failures; non-trivial when a leak candidate is re-validated, a handle has addresses of mixed validity, the final live re-check decides, or something is actually released; distinct by op-kind sequence + classes",
+		"random histories of node add/delete (KDD and etcd naming; in etcd mode also Calico nodes without a Kubernetes orchRef holding tunnel / workload addresses and blocks), pod create/delete/reschedule/finish with a lagging pod informer, CNI allocations (1-2 IPs per handle, borrowed blocks), tunnel / KubeVirt VM / odd allocations, sequence-number bumps, block add/unaffine/delete, ordered block event delivery, time steps, GC syncs (dirty-only and full) with injected ReleaseIPs failures; non-trivial when a leak candidate is re-validated, a handle has addresses of mixed validity, the final live re-check decides, or something is actually released; distinct by op-kind sequence + classes",
 		"owner rules are those of design/ipam/ipam-gc.md; 'in use' for a pod allocation means: pod exists now on the allocation's node, not finished, and holds the address or has none reported yet",
 		"'first observed as leaked' is modelled from the documented decision tree applied at every sync to the nodes the controller scans (its dirty set / full-scan flag are read as observation points)",
 		"the pod informer may lag behind the API server except that it is caught up when a node is deleted; node informer and Calico node mapping are never stale; pods are always scheduled; a deleted node's name is reused only by the explicit node-reuse steps",
@@ -1888,13 +1977,13 @@ func TestVerifC23IPAMGC(t *testing.T) {
 	rapid.Check(t, func(t *rapid.T) { c23Run(t, rec) })
 }
 
-// TestVerifC23KnownAttrsRewrite is the deterministic confirmation of the finding
+// TestVerifC23RegressionAttrsRewrite is the regression test (fixed in repo commit 0b6d866) for the finding
 // c23-owner-attrs-rewrite-not-tracked: it FAILS while the finding reproduces.  A KubeVirt VM's
 // address has its ActiveOwnerAttrs rewritten in place (new launcher pod on node n1, same sequence
 // number, as cni-plugin's SetOwnerAttributes does); the controller keeps the old attributes, so
 // when the old node n0 is deleted and the VM object is briefly absent the address is released at
 // once instead of after the VM recreation grace period, although its node n1 exists.
-func TestVerifC23KnownAttrsRewrite(t *testing.T) {
+func TestVerifC23RegressionAttrsRewrite(t *testing.T) {
 	ev.Quiet()
 	g := 2*time.Minute + 30*time.Second
 	e := c23NewEnv(true, &g)
@@ -1928,14 +2017,14 @@ func TestVerifC23KnownAttrsRewrite(t *testing.T) {
 	}
 }
 
-// TestVerifC23KnownPartialHandle is the confirmation of the finding
+// TestVerifC23RegressionPartialHandle is the regression test (fixed in repo commit 8687510) for the finding
 // c23-final-recheck-order-partial-handle: it FAILS while the finding reproduces.  A pod holds two
 // addresses under one handle but reports only the first (dual stack in Calico, single stack in
 // Kubernetes); the pod informer is stale for longer than the grace period, so the scan confirms
 // both as leaks; the final live re-validation then rescues the first one - but whether the second
 // one is released alone depends on the iteration order of the confirmedLeaks map.  Independent
 // trials make the outcome practically certain.
-func TestVerifC23KnownPartialHandle(t *testing.T) {
+func TestVerifC23RegressionPartialHandle(t *testing.T) {
 	ev.Quiet()
 	for trial := 0; trial < 60; trial++ {
 		g := 2*time.Minute + 30*time.Second
@@ -1962,7 +2051,7 @@ func TestVerifC23KnownPartialHandle(t *testing.T) {
 	}
 }
 
-// TestVerifC23KnownStaleKnode is the deterministic confirmation of the finding
+// TestVerifC23RegressionStaleKnode is the regression test (fixed in repo commit 3a550b3) for the finding
 // c23-stale-knode-after-node-name-reuse: it FAILS while the finding reproduces.
 //
 // Tunnel variant: node n0 (with a VXLAN tunnel address) is deleted; the full sync confirms the
@@ -1974,7 +2063,7 @@ func TestVerifC23KnownPartialHandle(t *testing.T) {
 // Pod variant: as above, but another pod keeps n0 "in use" (node marked clean), p0's address is a
 // confirmed leak whose release fails, then p0 is re-created on the re-registered n0 with the
 // informer lagging: knode "" makes the GC ask the stale cache instead of the API server.
-func TestVerifC23KnownStaleKnode(t *testing.T) {
+func TestVerifC23RegressionStaleKnode(t *testing.T) {
 	ev.Quiet()
 	g := 2*time.Minute + 30*time.Second
 	var found []string
